@@ -421,6 +421,9 @@ func checkQuantifierAbsent(r *Run, prog *Program, a *Anchors, pfx string) {
 
 func checkLookupArgs(r *Run, prog *Program, a *Anchors, fn *ssa.Function, pfx string) {
 	pExpr := paramSym(fn.Params[0])
+	if nP, _, _ := evalParams(fn); nP != nil {
+		pExpr = paramSym(nP)
+	}
 	wantPath := loadField(pExpr, "Selector", "Path").Key()
 	ps := NewPathSim(prog)
 	ps.Inline = func(c *ssa.Function) bool { return bexprHelper(prog, a, c) }
@@ -468,9 +471,17 @@ func checkLookupArgs(r *Run, prog *Program, a *Anchors, fn *ssa.Function, pfx st
 			for i, q := range a.GetValue.Params {
 				switch q {
 				case dP:
-					okA = okA && args[i].Key() == paramSym(fn.Params[1]).Key()
+					dOwn := paramSym(fn.Params[1])
+					if _, d2, _ := evalParams(fn); d2 != nil {
+						dOwn = paramSym(d2)
+					}
+					okA = okA && args[i].Key() == dOwn.Key()
 				case pP:
-					okA = okA && args[i].Key() == wantPath
+					if namedIs(pP.Type(), grammarPath, "Selector") {
+						okA = okA && args[i].Key() == loadField(pExpr, "Selector").Key()
+					} else {
+						okA = okA && args[i].Key() == wantPath
+					}
 				case oP:
 					own := paramSym(fn.Params[len(fn.Params)-1])
 					if resolved && !types.Identical(fn.Params[len(fn.Params)-1].Type(), oP.Type()) {
